@@ -171,12 +171,14 @@ class Ctx:
         return res
 
     # ---------------------------------------------------------------- Go harness
-    def build_harness(self, race=False):
-        key = "race" if race else "plain"
+    def build_harness(self, family, race=False):
+        """Build /verif/harness/cmd/<family> (each family is its own binary so that families do not
+        break one another) with -tags verif against the repository's current working tree."""
+        key = family + ("_race" if race else "")
         if self._bin and key in self._bin:
             return self._bin[key]
         self._bin = self._bin or {}
-        out = os.path.join(self.scratch, "vreplay_" + key)
+        out = os.path.join(self.scratch, "v_" + key)
         env = dict(os.environ)
         env.update(GOENV)
         modargs = []
@@ -195,17 +197,18 @@ class Ctx:
                 fh.write(txt)
             shutil.copy(os.path.join(REPO, "go.sum"), os.path.join(self.scratch, "alt.go.sum"))
             modargs = ["-modfile=" + mf]
-        cmd = ["go", "build", "-tags", "verif"] + modargs + (["-race"] if race else []) + ["-o", out, "./cmd/vreplay"]
+        cmd = ["go", "build", "-tags", "verif"] + modargs + (["-race"] if race else []) + ["-o", out, "./cmd/" + family]
         t = time.time()
         p = subprocess.run(cmd, cwd=HARNESS, env=env, stdout=subprocess.PIPE, stderr=subprocess.STDOUT, text=True)
         if p.returncode != 0:
             raise Inconclusive("harness build failed:\n" + p.stdout[-4000:])
-        self.log("built harness (%s) in %.1fs" % (key, time.time() - t))
+        self.log("built harness %s in %.1fs" % (key, time.time() - t))
         self._bin[key] = out
         return out
 
     def harness(self, args, *, input_path=None, output_path=None, timeout=900, race=False, env=None, check=True):
-        b = self.build_harness(race=race)
+        b = self.build_harness(args[0], race=race)
+        args = list(args[1:])
         e = dict(os.environ)
         e["VERIF_SEED"] = str(self.seed)
         e["VERIF_TIER"] = self.tier
